@@ -1,4 +1,5 @@
-\* random deep plans with failing collection starts
+\* plans with starts of collections dropped upstream (OfferDropped): every history, counts 1..4 x 1..4, init + 3 steps
+\* (filtered to those with such a start)
 SPECIFICATION Spec
 CHECK_DEADLOCK FALSE
 INVARIANTS PlanOut
@@ -7,12 +8,12 @@ CONSTANTS
   MaxT = 4
   Pairs <- AllPairs
   Namings = {"distinct", "same"}
-  MaxOps = 16
+  MaxOps = 4
   HandoffChecksCapacity = FALSE
   ForwardCountedOnce = FALSE
   SourceKeyFromMapping = FALSE
-  WithFail = TRUE
+  WithFail = FALSE
   MaxFlight = 0
   OfferAtomic = TRUE
-  WithDropped = FALSE
+  WithDropped = TRUE
   DroppedChecksQuota = TRUE
